@@ -128,6 +128,10 @@ def isFixedNumeric : KType → Bool
   | .int8 | .int16 | .int32 | .int64 | .uint16 | .uint32 | .uint64 | .float64 => true
   | _ => false
 
+/-- `PrimitiveField.is_nullable`: fixed-width numbers, booleans and error codes have no null
+    representation and are never `| None` -/
+def neverNullable (k : KType) : Bool := isFixedNumeric k || k == .bool || k == .errorCode
+
 /-! ## integers in the accepted spellings (`int(s, 0)`) -/
 
 def digitVal (c : Nat) : Option Nat :=
